@@ -689,7 +689,8 @@ WBXML_DECLARE(WB_BOOL) wbxml_buffer_binary_to_hex(WBXMLBuffer *buffer, WB_BOOL u
     hexits = (WB_UTINY *)(uppercase ? "0123456789ABCDEF" : "0123456789abcdef");
 
     /* Grows the Buffer size by 2 */
-    grow_buff(buffer, buffer->len * 2);
+    if (!grow_buff(buffer, buffer->len * 2))
+        return FALSE;
 
     /* In-place modification must be done back-to-front to avoid
      * overwriting the data while we read it.  Even the order of
